@@ -1,6 +1,6 @@
 #!/bin/sh
 # process_seeds.sh Cxx [Cyy ...]: for k in 1 2: run the property's check on the patched private copy, confirm the seed, store it
-for pid in "$@"; do for k in 1 2 3 4 5 6 7 8; do
+for pid in "$@"; do for k in 1 2 3 4 5 6 7 8 9 10; do
   [ -f /tmp/mut/$pid/_out/patch_$k.diff ] || continue
   /tmp/seedrun/run.sh /tmp/mut/$pid/_out/patch_$k.diff $pid > /tmp/seedrun/proc_${pid}_$k.txt 2>&1
   if grep -q "^VIOLATION.*no-failing-input-found" /tmp/seedrun/last_$pid.log; then det=caught-no-input
